@@ -960,10 +960,15 @@ class MixedEdgeGraph:
         """
         if edge_type == "all":
             edge_types = self.edge_types
+        else:
+            # raises ValueError for an unknown edge type
+            self._get_internal_graph(edge_type)
+            edge_types = [edge_type]
 
         s = 0
+        degrees = self.degree(weight=weight)
         for _edge_type in edge_types:
-            s = sum(d for v, d in self.degree(weight=weight)[_edge_type])
+            s += sum(d for v, d in degrees[_edge_type])
         # If `weight` is None, the sum of the degrees is guaranteed to be
         # even, so we can perform integer division and hence return an
         # integer. Otherwise, the sum of the weighted degrees is not
